@@ -208,10 +208,14 @@ func (r *Region) WriteSector(x, z int, data []byte) error {
 		timestamp := time.Now().Unix()
 		err := r.setHead(x, z, uint32(r.offsets[z][x]), uint32(timestamp))
 		if err != nil {
-			// the header in the file may still name the old sectors: keep them reserved
+			// the header entry in the file is unchanged (setHead writes it last): undo the allocation
+			for i := int32(0); i < need; i++ {
+				r.sectors[n+i] = false
+			}
 			for i := int32(0); i < oldNow; i++ {
 				r.sectors[oldN+i] = true
 			}
+			r.offsets[z][x] = (oldN << 8) | (oldNow & 0xFF)
 			return err
 		}
 		r.Timestamps[z][x] = int32(timestamp)
@@ -271,14 +275,15 @@ func (r *Region) findSpace(need int32) (n int32) {
 func (r *Region) setHead(x, z int, offset, timestamp uint32) (err error) {
 	var buf [4]byte
 
-	binary.BigEndian.PutUint32(buf[:], offset)
-	_, err = r.writeAt(buf[:], 4*(int64(z)*32+int64(x)))
+	binary.BigEndian.PutUint32(buf[:], timestamp)
+	_, err = r.writeAt(buf[:], 4096+4*(int64(z)*32+int64(x)))
 	if err != nil {
 		return
 	}
 
-	binary.BigEndian.PutUint32(buf[:], timestamp)
-	_, err = r.writeAt(buf[:], 4096+4*(int64(z)*32+int64(x)))
+	// the location goes out last: if anything above failed the file still names the old sectors
+	binary.BigEndian.PutUint32(buf[:], offset)
+	_, err = r.writeAt(buf[:], 4*(int64(z)*32+int64(x)))
 	if err != nil {
 		return
 	}
